@@ -6,10 +6,14 @@ import (
 	"fmt"
 	"os"
 	"strings"
+	"sync"
+	"time"
 	"unicode/utf8"
 
 	"golang.org/x/text/transform"
 
+	imap "github.com/emersion/go-imap/v2"
+	"github.com/emersion/go-imap/v2/imapserver"
 	shim "github.com/emersion/go-imap/v2/verifshim"
 )
 
@@ -38,6 +42,82 @@ func allPrintable(s string) bool {
 	return true
 }
 
+// trStream is one transformer obtained from utf7.Encoding, fed its own input in source chunks
+// of `chunk` bytes into destination buffers of `curCap` bytes, one Transform call per step.
+type trStream struct {
+	isDec         bool
+	input         string
+	chunk0, cap0  int
+	tr            transform.Transformer
+	chunk, curCap int
+	pending, rest []byte
+	result        []byte
+	calls         []trCall
+	finalErr      error
+	done          bool
+}
+
+func newTrStream(isDec bool, input string, chunk, capN int) *trStream {
+	st := &trStream{isDec: isDec, input: input, chunk0: chunk, cap0: capN, chunk: chunk, curCap: capN, pending: []byte{}, rest: []byte(input)}
+	if isDec {
+		st.tr = shim.UTF7().NewDecoder().Transformer
+	} else {
+		st.tr = shim.UTF7().NewEncoder().Transformer
+	}
+	st.tr.Reset()
+	return st
+}
+
+func (st *trStream) step() {
+	if st.done {
+		return
+	}
+	if len(st.calls) >= 4000 {
+		st.done = true
+		return
+	}
+	if len(st.rest) > 0 && len(st.pending) < st.chunk {
+		n := st.chunk - len(st.pending)
+		if n > len(st.rest) {
+			n = len(st.rest)
+		}
+		st.pending = append(st.pending, st.rest[:n]...)
+		st.rest = st.rest[n:]
+	}
+	atEOF := len(st.rest) == 0
+	dst := make([]byte, st.curCap)
+	nDst, nSrc, err := st.tr.Transform(dst, st.pending, atEOF)
+	st.calls = append(st.calls, trCall{st.curCap, string(st.pending), atEOF, string(dst[:nDst]), nSrc, errClass(err)})
+	st.result = append(st.result, dst[:nDst]...)
+	st.pending = append([]byte(nil), st.pending[nSrc:]...)
+	switch {
+	case err == transform.ErrShortDst:
+		if nDst == 0 {
+			st.curCap *= 2
+		}
+	case err == transform.ErrShortSrc:
+		if atEOF {
+			st.finalErr = err
+			st.done = true
+		} else if nSrc == 0 {
+			st.chunk *= 2
+		}
+	case err != nil:
+		st.finalErr = err
+		st.done = true
+	case atEOF && len(st.pending) == 0:
+		st.done = true
+	}
+}
+
+func (st *trStream) coq() string {
+	var cs []string
+	for _, c := range st.calls {
+		cs = append(cs, fmt.Sprintf("(%d, %s, %s, %s, %d, %d)", c.Cap, coqHxS(c.Src), coqBool(c.EOF), coqHxS(c.Out), c.NSrc, c.Err))
+	}
+	return "(" + coqBool(st.isDec) + ", " + coqList(cs) + ")"
+}
+
 type trCall struct {
 	Cap  int    `json:"cap"`
 	Src  string `json:"src"`
@@ -52,7 +132,7 @@ func runC16(h *H) {
 	encCorr := h.NewCorr("encode", imports, "enc_mismatches", 2500).Type("enc_case")
 	decCorr := h.NewCorr("decode", imports, "dec_mismatches", 2500).Type("dec_case")
 	trCorr := h.NewCorr("transform", imports, "trf_mismatches", 300).Type("trf_case")
-	h.Rule("encoder: all strings up to the tier's length over a 10-code-point alphabet {a,&,-,~,U+0001,U+007F,U+00E9,U+20AC,U+FFFD,U+1F600} plus invalid-UTF-8 corpus and random valid UTF-8 up to 200 code points (crossing transform.String's 128-byte chunks); decoder: all byte strings up to the tier's length over {&,-,A,k,l,=,',',+,a,0x1F,0x80,CR} plus corpus, encoder outputs and their mutations; explicit Transform calls: a driver feeding source chunks of 1..7 bytes into destination buffers of 1..12 bytes, every call recorded. Oracles on the real code: decode(encode s) == s for valid UTF-8, output printable ASCII, decoder output utf8.Valid, listed malformed forms rejected, chunked result == one-shot result. Non-trivial = input contains a non-ASCII/control code point (encoder) or a base64 shift (decoder); distinct by input.")
+	h.Rule("encoder: all strings up to the tier's length over a 10-code-point alphabet {a,&,-,~,U+0001,U+007F,U+00E9,U+20AC,U+FFFD,U+1F600} plus invalid-UTF-8 corpus and random valid UTF-8 up to 200 code points (crossing transform.String's 128-byte chunks); decoder: all byte strings up to the tier's length over {&,-,A,k,l,=,',',+,a,0x1F,0x80,CR} plus corpus, encoder outputs and their mutations; explicit Transform calls: a driver feeding source chunks of 1..7 bytes into destination buffers of 1..12 bytes, every call recorded; 2..4 transformers from utf7.Encoding driven at the same time with interleaved Transform calls (round robin and random schedules), and 8 goroutines using the one-shot API concurrently; names drawn from Unicode classes that normalisation/case/width folding would change (combining sequences, singletons, Hangul jamo, compatibility forms, ignorables, noncharacters); mailbox names (corpus, Unicode classes, random) through imapwire Encoder.Mailbox/ExpectMailbox and as CREATE argument and LIST pattern/response of a real imapserver. Oracles on the real code: name read back / seen by the backend == name sent, every transformer behaves as when used alone, decode(encode s) == s for valid UTF-8, output printable ASCII, decoder output utf8.Valid, listed malformed forms rejected, chunked result == one-shot result. Non-trivial = input contains a non-ASCII/control code point (encoder) or a base64 shift (decoder); distinct by input.")
 
 	encOne := func(s string, src string) string {
 		h.InFlight(map[string]interface{}{"encode": []byte(s)})
@@ -142,60 +222,12 @@ func runC16(h *H) {
 	}
 	// explicit Transform driver; decoder selects the transformer
 	drive := func(isDec bool, input string, chunk, capN int, src string) {
-		var tr transform.Transformer
-		if isDec {
-			tr = shim.UTF7().NewDecoder().Transformer
-		} else {
-			tr = shim.UTF7().NewEncoder().Transformer
-		}
-		tr.Reset()
 		h.InFlight(map[string]interface{}{"transform": []byte(input), "dec": isDec, "chunk": chunk, "cap": capN})
-		var calls []trCall
-		var result []byte
-		pending := []byte{}
-		rest := []byte(input)
-		var finalErr error
-		curCap := capN
-		for steps := 0; steps < 4000; steps++ {
-			// feed
-			if len(rest) > 0 && len(pending) < chunk {
-				n := chunk - len(pending)
-				if n > len(rest) {
-					n = len(rest)
-				}
-				pending = append(pending, rest[:n]...)
-				rest = rest[n:]
-			}
-			atEOF := len(rest) == 0
-			dst := make([]byte, curCap)
-			nDst, nSrc, err := tr.Transform(dst, pending, atEOF)
-			calls = append(calls, trCall{curCap, string(pending), atEOF, string(dst[:nDst]), nSrc, errClass(err)})
-			result = append(result, dst[:nDst]...)
-			pending = append([]byte(nil), pending[nSrc:]...)
-			if err == transform.ErrShortDst {
-				if nDst == 0 {
-					curCap *= 2
-				}
-				continue
-			}
-			if err == transform.ErrShortSrc {
-				if atEOF {
-					finalErr = err
-					break
-				}
-				if nSrc == 0 {
-					chunk *= 2
-				}
-				continue
-			}
-			if err != nil {
-				finalErr = err
-				break
-			}
-			if atEOF && len(pending) == 0 {
-				break
-			}
+		st := newTrStream(isDec, input, chunk, capN)
+		for !st.done {
+			st.step()
 		}
+		calls, result, finalErr := st.calls, st.result, st.finalErr
 		desc := map[string]interface{}{"transform_hex": fmt.Sprintf("%x", input), "dec": isDec, "chunk": chunk, "cap": capN, "calls": calls}
 		// oracle: chunked == one-shot
 		var one string
@@ -221,15 +253,114 @@ func runC16(h *H) {
 		trCorr.Add("("+coqBool(isDec)+", "+coqList(cs)+")", desc)
 	}
 
+	// several transformers handed out by utf7.Encoding, each with its own input, chunking and
+	// destination size; their Transform calls are interleaved (sched seed 0: round robin,
+	// otherwise a random schedule). Each stream must behave exactly as if it ran alone.
+	type trSpec struct {
+		Dec   bool   `json:"dec"`
+		Hex   string `json:"hex"`
+		Chunk int    `json:"chunk"`
+		Cap   int    `json:"cap"`
+	}
+	interleave := func(specs []trSpec, sseed int64, src string) {
+		unhex := func(s string) string {
+			var out []byte
+			fmt.Sscanf(s, "%x", &out)
+			return string(out)
+		}
+		desc := map[string]interface{}{"interleave": specs, "sched_seed": sseed}
+		h.InFlight(desc)
+		type want struct {
+			out string
+			err error
+		}
+		var wants []want
+		for _, sp := range specs {
+			var w want
+			if sp.Dec {
+				w.out, w.err = shim.UTF7().NewDecoder().String(unhex(sp.Hex))
+			} else {
+				w.out, w.err = shim.UTF7().NewEncoder().String(unhex(sp.Hex))
+			}
+			wants = append(wants, w)
+		}
+		var sts []*trStream
+		for _, sp := range specs {
+			sts = append(sts, newTrStream(sp.Dec, unhex(sp.Hex), sp.Chunk, sp.Cap))
+		}
+		var rng = newRand(sseed)
+		for turn := 0; ; turn++ {
+			var live []*trStream
+			for _, st := range sts {
+				if !st.done {
+					live = append(live, st)
+				}
+			}
+			if len(live) == 0 {
+				break
+			}
+			if sseed == 0 {
+				live[turn%len(live)].step()
+			} else {
+				st := live[rng.Intn(len(live))]
+				for n := 1 + rng.Intn(3); n > 0; n-- {
+					st.step()
+				}
+			}
+		}
+		for i, st := range sts {
+			w := wants[i]
+			if (w.err == nil) != (st.finalErr == nil) || (w.err == nil && w.out != string(st.result)) {
+				h.Fail("interleaved", fmt.Sprintf("%d transformers from utf7.Encoding driven with interleaved Transform calls: stream %d (decoder=%v, input %q, %d-byte source chunks, %d-byte destination) gives (%q, %v), alone it gives (%q, %v)", len(sts), i, st.isDec, st.input, st.chunk0, st.cap0, st.result, st.finalErr, w.out, w.err), desc)
+			}
+			if i == 0 && h.Rng.Intn(3) == 0 {
+				// each stream's own call record is an ordinary case of the transformer model
+				d := map[string]interface{}{"interleave": specs, "sched_seed": sseed, "stream": i, "calls": st.calls}
+				trCorr.Add(st.coq(), d)
+			}
+		}
+		h.Eval(fmt.Sprintf("i|%v|%d", specs, sseed))
+		h.Hist("interleaved:" + src)
+	}
+	// the path a mailbox name really travels: imapwire's Encoder.Mailbox, then the peer's
+	// ExpectMailbox (which wrap the encoder / decoder above)
+	mailboxWire := func(name string, src string) {
+		want := name
+		if strings.EqualFold(name, "INBOX") {
+			want = "INBOX"
+		}
+		for _, wc := range []wcfg{{Client: true}, {Client: true, QuotedUTF8: true}, {Client: false}} {
+			out, err := wireEncode(wc, func(enc *shim.Encoder) { enc.Mailbox(name) })
+			desc := map[string]interface{}{"mailbox": name, "mailbox_hex": fmt.Sprintf("%x", name), "wire": string(out)}
+			if err != nil {
+				h.Fail("mailbox-wire:encode", fmt.Sprintf("Encoder.Mailbox(%q): %v", name, err), desc)
+				continue
+			}
+			o := wireDecode(6, !wc.Client, append(append([]byte(nil), out...), " x\r\n"...))
+			if o.Class != 0 || o.Val != want {
+				h.Fail("mailbox-wire:roundtrip", fmt.Sprintf("mailbox %+q written as %q is read back as %+q (class %d)", name, out, o.Val, o.Class), desc)
+			}
+		}
+		key := ""
+		if !allPrintable(name) || strings.Contains(name, "&") {
+			key = "wire|" + name
+		}
+		h.Eval(key)
+		h.Hist("mailbox-wire:" + src)
+	}
+
 	if h.Replay != "" {
 		var wrap struct {
 			Case struct {
-				Enc   *string `json:"encode_hex"`
-				Dec   *string `json:"decode_hex"`
-				Tr    *string `json:"transform_hex"`
-				IsDec bool    `json:"dec"`
-				Chunk int     `json:"chunk"`
-				Cap   int     `json:"cap"`
+				Enc   *string  `json:"encode_hex"`
+				Dec   *string  `json:"decode_hex"`
+				Tr    *string  `json:"transform_hex"`
+				IsDec bool     `json:"dec"`
+				Chunk int      `json:"chunk"`
+				Cap   int      `json:"cap"`
+				Mbox  *string  `json:"mailbox_hex"`
+				Inter []trSpec `json:"interleave"`
+				SSeed int64    `json:"sched_seed"`
 			} `json:"case"`
 		}
 		b, _ := os.ReadFile(h.Replay)
@@ -240,6 +371,10 @@ func runC16(h *H) {
 			return string(out)
 		}
 		switch {
+		case wrap.Case.Inter != nil:
+			interleave(wrap.Case.Inter, wrap.Case.SSeed, "replay")
+		case wrap.Case.Mbox != nil:
+			mailboxWire(unhex(*wrap.Case.Mbox), "replay")
 		case wrap.Case.Enc != nil:
 			encOne(unhex(*wrap.Case.Enc), "replay")
 		case wrap.Case.Dec != nil:
@@ -294,6 +429,9 @@ func runC16(h *H) {
 				sb.WriteRune(rune(0x10000 + h.Rng.Intn(0x100000)))
 			case 4:
 				sb.WriteByte('&')
+			case 5:
+				cl := uniClasses[h.Rng.Intn(len(uniClasses))]
+				sb.WriteRune(cl.lo + rune(h.Rng.Intn(int(cl.hi-cl.lo)+1)))
 			default:
 				sb.WriteRune(rune(0x20 + h.Rng.Intn(0x5f)))
 			}
@@ -306,29 +444,55 @@ func runC16(h *H) {
 		randStrs = append(randStrs, s)
 		encOuts = append(encOuts, encOne(s, "random"))
 	}
+	// names built from the Unicode classes that text transformations other than the identity
+	// treat specially (see uniClasses): every class bound alone and after/before ASCII, every
+	// base letter followed by every combining mark, and random mixes
+	var uniNames []string
+	for _, cl := range uniClasses {
+		for _, r := range []rune{cl.lo, cl.hi} {
+			uniNames = append(uniNames, string(r), "a"+string(r), string(r)+"b/&"+string(r))
+		}
+	}
+	for _, b := range uniBases {
+		for _, m := range uniMarks {
+			uniNames = append(uniNames, string(b)+string(m), "Caf"+string(b)+string(m)+string(m)+"/x")
+		}
+	}
+	for i := 0; i < h.Pick(150, 1500); i++ {
+		var sb strings.Builder
+		for n := 1 + h.Rng.Intn(8); n > 0; n-- {
+			switch h.Rng.Intn(4) {
+			case 0:
+				sb.WriteRune(rune(0x20 + h.Rng.Intn(0x5f)))
+			case 1:
+				sb.WriteRune(uniBases[h.Rng.Intn(len(uniBases))])
+				sb.WriteRune(uniMarks[h.Rng.Intn(len(uniMarks))])
+			default:
+				cl := uniClasses[h.Rng.Intn(len(uniClasses))]
+				sb.WriteRune(cl.lo + rune(h.Rng.Intn(int(cl.hi-cl.lo)+1)))
+			}
+		}
+		uniNames = append(uniNames, sb.String())
+	}
+	for _, s := range uniNames {
+		encOuts = append(encOuts, encOne(s, "unicode-classes"))
+	}
 	// long runs crossing transform.String's 128-byte chunks
 	for _, n := range []int{40, 43, 64, 100, 127, 128, 129, 200, 300} {
 		encOuts = append(encOuts, encOne(strings.Repeat("é", n), "long"))
 		encOuts = append(encOuts, encOne(strings.Repeat("a", n-1)+"😀"+strings.Repeat("&", 3), "long"))
 	}
-	// ---- the path a mailbox name really travels: imapwire's Encoder.Mailbox, then the peer's
-	// ExpectMailbox (which wrap the encoder / decoder above) ----
-	for _, name := range []string{"R&D", "a&b", "&", "&&", "AT&T", "Sales & Marketing", "a&-b", "&-", "Entwürfe", "台北/日本語", "x&y/é", "~peter/mail/台北", "plain", "a b", "-&-"} {
-		for _, wc := range []wcfg{{Client: true}, {Client: true, QuotedUTF8: true}, {Client: false}} {
-			out, err := wireEncode(wc, func(enc *shim.Encoder) { enc.Mailbox(name) })
-			desc := map[string]interface{}{"mailbox": name, "wire": string(out)}
-			if err != nil {
-				h.Fail("mailbox-wire:encode", fmt.Sprintf("Encoder.Mailbox(%q): %v", name, err), desc)
-				continue
-			}
-			o := wireDecode(6, !wc.Client, append(append([]byte(nil), out...), " x\r\n"...))
-			if o.Class != 0 || o.Val != name {
-				h.Fail("mailbox-wire:roundtrip", fmt.Sprintf("mailbox %q written as %q is read back as %q (class %d)", name, out, o.Val, o.Class), desc)
-			}
-			h.Eval("wire|" + name)
-			h.Hist("src:mailbox-wire")
-		}
+	// ---- mailbox names on the wire (see mailboxWire) ----
+	for _, name := range []string{"R&D", "a&b", "&", "&&", "AT&T", "Sales & Marketing", "a&-b", "&-", "Entwürfe", "台北/日本語", "x&y/é", "~peter/mail/台北", "plain", "a b", "-&-", "inbox", "InBox", "INBOX/x"} {
+		mailboxWire(name, "corpus")
 	}
+	for _, name := range uniNames {
+		mailboxWire(name, "unicode-classes")
+	}
+	for _, name := range randStrs {
+		mailboxWire(name, "random")
+	}
+	c16Server(h, append(append([]string(nil), uniNames...), randStrs[:h.Pick(60, 400)]...))
 	// ---- decoder ----
 	for _, t := range []string{"", "&", "&-", "&&", "&AGE", "&AGE-", "&AGEAYg-", "&AOk-", "&AOk-&AOk-", "&AOk-a&AOk-", "&AOk-&-", "&-&AOk-", "&AOk=-", "&AOk", "&AO-", "&A-", "&AA-", "&AAA-", "&2D3eAA-", "&2D0-", "&3gDYPQ-", "&2D3YPQ-", "&,,8-", "&AOk\r\n-", "&AO\nk-", "a\x80", "a\x1f", "\x7f", "&AOkA-", "&AOkAAA-", "&AOl-", "&AOm-", "&AOn-", "&AGE=-", "&AOk--", "-", "a-b", "&AAAAAA-", "&ACYAJg-", "&ImIAJg-"} {
 		decOne(t, "corpus")
@@ -416,5 +580,226 @@ func runC16(h *H) {
 				drive(true, t, chunk, capN, "decoder-malformed")
 			}
 		}
+	}
+	// ---- several transformers in use at the same time ----
+	// pool: valid encoded names (many shifts), malformed forms, plain ASCII, raw names for encoders
+	var ipool []trSpec
+	hx := func(s string) string { return fmt.Sprintf("%x", s) }
+	for _, t := range []string{"&AOk-&AOk-", "&AP8-&AP8-", "caf&AOk-", "&AP8-!", "abc", "&AOk", "a&-b", "&AOk-a&AOk-", "&AOk-&-&AOk-", "&ZeVnLIqe-/&2D3eCg-x", "ab\x80", "&-&-&-"} {
+		ipool = append(ipool, trSpec{Dec: true, Hex: hx(t)})
+	}
+	for _, s := range append(append([]string(nil), tcorp...), uniNames[:h.Pick(40, 300)]...) {
+		if len(s) > 40 {
+			s = s[:40]
+			for !utf8.ValidString(s) && len(s) > 0 {
+				s = s[:len(s)-1]
+			}
+		}
+		enc, _ := shim.UTF7().NewEncoder().String(s)
+		ipool = append(ipool, trSpec{Dec: true, Hex: hx(enc)}, trSpec{Dec: false, Hex: hx(s)})
+	}
+	// every ordered pair of the first (hand-written) entries, whole tokens per call, round robin
+	for i := 0; i < 12; i++ {
+		for j := 0; j < 12; j++ {
+			for _, chunk := range []int{1, 3, 5} {
+				a, b := ipool[i], ipool[j]
+				a.Chunk, a.Cap, b.Chunk, b.Cap = chunk, 64, chunk, 64
+				interleave([]trSpec{a, b}, 0, "pairs")
+			}
+		}
+	}
+	for i := 0; i < h.Pick(300, 3000); i++ {
+		k := 2 + h.Rng.Intn(3)
+		var specs []trSpec
+		for ; k > 0; k-- {
+			sp := ipool[h.Rng.Intn(len(ipool))]
+			sp.Chunk, sp.Cap = 1+h.Rng.Intn(7), 1+h.Rng.Intn(12)
+			specs = append(specs, sp)
+		}
+		sseed := int64(0)
+		if h.Rng.Intn(4) != 0 {
+			sseed = 1 + h.Rng.Int63n(1<<40)
+		}
+		interleave(specs, sseed, "random")
+	}
+	// concurrent one-shot use, as every connection of a server (and every client of a process)
+	// does for each mailbox name: the results must be the sequential ones
+	type cjob struct {
+		dec     bool
+		in, out string
+		ok      bool
+	}
+	var jobs []cjob
+	for _, sp := range ipool {
+		var in string
+		{
+			var raw []byte
+			fmt.Sscanf(sp.Hex, "%x", &raw)
+			in = string(raw)
+		}
+		var out string
+		var err error
+		if sp.Dec {
+			out, err = shim.UTF7().NewDecoder().String(in)
+		} else {
+			out, err = shim.UTF7().NewEncoder().String(in)
+		}
+		jobs = append(jobs, cjob{sp.Dec, in, out, err == nil})
+	}
+	var mu sync.Mutex
+	var cfail []string
+	var wg sync.WaitGroup
+	stopAt := time.Now().Add(time.Duration(h.Pick(1500, 8000)) * time.Millisecond)
+	ncalls := 0
+	for g := 0; g < 8; g++ {
+		wg.Add(1)
+		go func(g int) {
+			defer wg.Done()
+			n := 0
+			for i := g; time.Now().Before(stopAt) && n < h.Pick(20000, 200000); i += 7 {
+				j := jobs[i%len(jobs)]
+				var out string
+				var err error
+				if j.dec {
+					out, err = shim.UTF7().NewDecoder().String(j.in)
+				} else {
+					out, err = shim.UTF7().NewEncoder().String(j.in)
+				}
+				n++
+				if (err == nil) != j.ok || (j.ok && out != j.out) {
+					mu.Lock()
+					cfail = append(cfail, fmt.Sprintf("decoder=%v input %q: (%q, %v) while 7 other goroutines use utf7.Encoding, (%q, ok=%v) alone", j.dec, j.in, out, err, j.out, j.ok))
+					mu.Unlock()
+					break
+				}
+			}
+			mu.Lock()
+			ncalls += n
+			mu.Unlock()
+		}(g)
+	}
+	wg.Wait()
+	h.Note("concurrent one-shot use: %d String calls from 8 goroutines", ncalls)
+	h.Hist("concurrent")
+	h.Eval("concurrent")
+	if len(cfail) > 0 {
+		h.Fail("concurrent", cfail[0], map[string]interface{}{"concurrent": cfail})
+	}
+}
+
+// uniClasses: code point ranges that Unicode-aware transformations (normalisation forms,
+// case and width folding, removal of default-ignorables, replacement of noncharacters) do
+// not map to themselves; a lossless name encoding must carry all of them unchanged.
+var uniClasses = []struct{ lo, hi rune }{
+	{0x0300, 0x036f},   // combining diacritical marks (incl. singletons U+0340/41/43/44)
+	{0x0370, 0x03ff},   // Greek (U+0374, U+037E, U+0387 singletons; sigma forms)
+	{0x00a0, 0x00ff},   // Latin-1 (NBSP, soft hyphen, micro sign, precomposed letters)
+	{0x0130, 0x0131},   // dotted/dotless i
+	{0x017f, 0x017f},   // long s
+	{0x0958, 0x095f},   // Devanagari composition exclusions
+	{0x1100, 0x11ff},   // Hangul conjoining jamo
+	{0xac00, 0xd7a3},   // precomposed Hangul syllables
+	{0x1e00, 0x1fff},   // Latin extended additional, Greek extended (oxia singletons)
+	{0x2000, 0x200f},   // spaces (U+2000/2001 singletons), ZWSP, ZWNJ, ZWJ, marks
+	{0x2028, 0x202e},   // line/paragraph separators, bidi controls
+	{0x2060, 0x2064},   // word joiner, invisible operators
+	{0x2100, 0x214f},   // letterlike (OHM, KELVIN, ANGSTROM signs)
+	{0x2329, 0x232a},   // angle brackets (singletons)
+	{0x2460, 0x24ff},   // enclosed alphanumerics
+	{0x2adc, 0x2adc},   // forking (composition exclusion)
+	{0x3000, 0x3000},   // ideographic space
+	{0x3041, 0x309f},   // Hiragana with voiced marks U+3099/309A
+	{0xf900, 0xfaff},   // CJK compatibility ideographs
+	{0xfb00, 0xfb4f},   // alphabetic presentation forms (ligatures, Hebrew exclusions)
+	{0xfdd0, 0xfdef},   // noncharacters
+	{0xfe00, 0xfe0f},   // variation selectors
+	{0xfeff, 0xfeff},   // BOM / ZWNBSP
+	{0xff00, 0xffef},   // half/fullwidth forms
+	{0xfffe, 0xffff},   // noncharacters
+	{0xe000, 0xf8ff},   // private use
+	{0x1d15e, 0x1d164}, // musical symbols (composition exclusions)
+	{0x2f800, 0x2fa1d}, // CJK compatibility ideographs supplement
+	{0xe0100, 0xe01ef}, // variation selectors supplement
+	{0x10fffe, 0x10ffff},
+}
+
+var uniBases = []rune{'e', 'A', 'o', 'n', 'c', 0x00e9, 0x03b1, 0x0391, 0x0415, 0x304b, 0x30cf, 0x1112, 0x0928, 0x05e9}
+var uniMarks = []rune{0x0301, 0x0300, 0x0308, 0x030a, 0x0323, 0x0327, 0x0345, 0x0306, 0x3099, 0x309a, 0x1161, 0x11ab, 0x093c, 0x05c1}
+
+// c16Server sends the names, encoded by hand-quoting the modified UTF-7 form, to a real
+// imapserver as CREATE argument and as LIST pattern; the backend must see exactly the name,
+// and the name written back in the LIST response must be read back unchanged.
+func c16Server(h *H, names []string) {
+	var reply string
+	ts := startServer(srvOpts{PreAuth: true, Configure: func(s *stubSession) {
+		s.onList = func(w *imapserver.ListWriter, ref string, patterns []string, options *imap.ListOptions) error {
+			return w.WriteList(&imap.ListData{Mailbox: reply, Delim: '/'})
+		}
+	}})
+	defer ts.Close()
+	rc := ts.dial()
+	defer rc.Close()
+	if _, err := rc.readLine(5 * time.Second); err != nil {
+		h.Fail("server:greeting", fmt.Sprintf("no greeting: %v", err), nil)
+		return
+	}
+	quote := func(s string) string {
+		return "\"" + strings.NewReplacer("\\", "\\\\", "\"", "\\\"").Replace(s) + "\""
+	}
+	for _, name := range names {
+		if name == "" || strings.EqualFold(name, "INBOX") {
+			continue
+		}
+		enc, err := shim.UTF7().NewEncoder().String(name)
+		if err != nil {
+			continue
+		}
+		desc := map[string]interface{}{"server_mailbox": name, "mailbox_hex": fmt.Sprintf("%x", name), "wire": enc}
+		h.InFlight(desc)
+		reply = name
+		sess := ts.lastSession()
+		if sess != nil {
+			sess.TakeCalls()
+		}
+		_, tagged, err := rc.cmd("CREATE " + quote(enc))
+		if err != nil || !isOK(tagged) {
+			h.Fail("server:create", fmt.Sprintf("CREATE %s for %+q: %q, %v", quote(enc), name, tagged, err), desc)
+			return
+		}
+		unt, tagged, err := rc.cmd("LIST \"\" " + quote(enc))
+		if err != nil || !isOK(tagged) {
+			h.Fail("server:list", fmt.Sprintf("LIST \"\" %s for %+q: %q, %v", quote(enc), name, tagged, err), desc)
+			return
+		}
+		sess = ts.lastSession()
+		for _, c := range sess.TakeCalls() {
+			switch c.Name {
+			case "Create":
+				if got, _ := c.Args["mailbox"].(string); got != name {
+					h.Fail("server:create-name", fmt.Sprintf("CREATE %s (name %+q): the backend is asked to create %+q", quote(enc), name, got), desc)
+				}
+				h.Hist("server:create")
+			case "List":
+				pats, _ := c.Args["patterns"].([]string)
+				if len(pats) != 1 || pats[0] != name {
+					h.Fail("server:list-pattern", fmt.Sprintf("LIST \"\" %s (pattern %+q): the backend is asked for %+q", quote(enc), name, pats), desc)
+				}
+				h.Hist("server:list")
+			}
+		}
+		found := false
+		for _, l := range unt {
+			if i := strings.Index(l, "\"/\" "); i >= 0 && strings.HasPrefix(l, "* LIST") {
+				o := wireDecode(6, false, []byte(l[i+4:]+" x\r\n"))
+				found = true
+				if o.Class != 0 || o.Val != name {
+					h.Fail("server:list-reply", fmt.Sprintf("mailbox %+q listed as %q is read back as %+q (class %d)", name, l, o.Val, o.Class), desc)
+				}
+			}
+		}
+		if !found {
+			h.Fail("server:list-reply", fmt.Sprintf("no LIST response for %+q: %q", name, unt), desc)
+		}
+		h.Eval("srv|" + name)
 	}
 }
